@@ -57,6 +57,10 @@ pub struct GenCfg {
     pub terminal_pct: u64,
     /// the last block has no out-edges (a reachable block without successors is likely)
     pub ensure_exit: bool,
+    /// percentage of blocks whose out-edge guards are NOT exclusive and exhaustive by construction (independent
+    /// conditions, a single guarded edge, an incomplete selector): several guards or none may hold.  Only for
+    /// the executor check; lifters and analyses assume complementary guards.
+    pub partial_guards_pct: u64,
 }
 
 impl GenCfg {
@@ -83,6 +87,7 @@ impl GenCfg {
             unknown_target_pct: 10,
             terminal_pct: 16,
             ensure_exit: false,
+            partial_guards_pct: 0,
         }
     }
 }
@@ -227,6 +232,17 @@ pub fn operation(rng: &mut Rng, cfg: &GenCfg, branch_targets: &[u64]) -> il::Ope
         return il::Operation::load(rng.pick(&bw).clone(), address_expr(rng, cfg));
     }
     if r < 34 {
+        // half of the no-ops stand for another operation (Operation::placeholder, as the x86 lifter emits for
+        // conditional jumps): a placeholder does nothing
+        if rng.bool() {
+            let d = rng.pick(&cfg.scalars).clone();
+            let inner = match rng.below(3) {
+                0 => il::Operation::assign(d.clone(), expr(rng, cfg, d.bits(), 1)),
+                1 => il::Operation::branch(address_expr(rng, cfg)),
+                _ => il::Operation::store(address_expr(rng, cfg), expr(rng, cfg, d.bits(), 1)),
+            };
+            return il::Operation::placeholder(inner);
+        }
         return il::Operation::nop();
     }
     if cfg.allow_intrinsic && r < 34 + cfg.intrinsic_pct {
@@ -269,6 +285,18 @@ pub fn operation(rng: &mut Rng, cfg: &GenCfg, branch_targets: &[u64]) -> il::Ope
 
 /// Guards for an out-degree-k block: exclusive and exhaustive by construction.
 pub fn guards(rng: &mut Rng, cfg: &GenCfg, k: usize) -> Vec<Option<E>> {
+    if k > 0 && rng.below(100) < cfg.partial_guards_pct {
+        return match k {
+            1 => vec![Some(cond(rng, cfg, 1))],
+            2 => vec![Some(cond(rng, cfg, 1)), Some(cond(rng, cfg, 1))],
+            _ => {
+                let wide: Vec<&il::Scalar> = cfg.scalars.iter().filter(|s| s.bits() >= 2).collect();
+                let sel = if wide.is_empty() { expr(rng, cfg, 2, 1) } else { E::Scalar((*rng.pick(&wide)).clone()) };
+                let w = sel.bits();
+                (0..k as u64).map(|i| Some(E::cmpeq(sel.clone(), il::expr_const(i, w)).unwrap())).collect()
+            }
+        };
+    }
     match k {
         0 => vec![],
         1 => vec![None],
@@ -314,6 +342,7 @@ pub fn function(rng: &mut Rng, cfg: &GenCfg, address: u64) -> il::Function {
                 il::Operation::Load { dst, index } => blk.load(dst, index),
                 il::Operation::Branch { target } => blk.branch(target),
                 il::Operation::Intrinsic { intrinsic } => blk.intrinsic(intrinsic),
+                il::Operation::Nop { placeholder: Some(op) } => blk.placeholder(*op),
                 il::Operation::Nop { .. } => blk.nop(),
             }
             blk.instructions_mut().last_mut().unwrap().set_address(Some(next_addr));
@@ -418,6 +447,7 @@ pub fn structured_function(rng: &mut Rng, cfg: &GenCfg, address: u64) -> il::Fun
                 il::Operation::Load { dst, index } => blk.load(dst, index),
                 il::Operation::Branch { target } => blk.branch(target),
                 il::Operation::Intrinsic { intrinsic } => blk.intrinsic(intrinsic),
+                il::Operation::Nop { placeholder: Some(op) } => blk.placeholder(*op),
                 il::Operation::Nop { .. } => blk.nop(),
             }
             blk.instructions_mut().last_mut().unwrap().set_address(Some(next_addr));
